@@ -320,6 +320,10 @@ def proj_behaviour(l, op=""):
     """return value, logical contents with ids, length, views; events as a multiset without compare events"""
     ev = sorted(e for e in l.events if not e.startswith("Q"))
     ret = strip_slots(l.ret)
+    if op.startswith("hash"):
+        # what exactly is fed to the hasher is not part of any property (only that it is a function of
+        # the contents: the cross-case layout-independence oracle of C13 / C04 decides that)
+        ret = "H"
     if op.startswith("as_slices") or op.startswith("as_mut_slices") or op.startswith("fill_buf"):
         # where the contents are split is a physical detail
         ret = ret.replace("]/[", " ").replace("[ ", "[").replace(" ]", "]")
@@ -332,7 +336,8 @@ def proj_physical(l, op=""):
     """everything, including front position and slot numbers; the order of the lifecycle events within
     one call is not part of any property (only C18 compares it, against the other build)"""
     ev = sorted(e for e in l.events if not e.startswith("Q"))
-    return (l.ret, tuple(ev), l.start, l.size, tuple(l.window), l.allocs, l.views, l.crash)
+    ret = "H" if op.startswith("hash") else l.ret
+    return (ret, tuple(ev), l.start, l.size, tuple(l.window), l.allocs, l.views, l.crash)
 
 
 def proj_alloc(l, op=""):
